@@ -59,7 +59,7 @@ def function_events(ctx):
     return ev
 
 
-def build_key(alg, expired, revoked, nuids=1, direct=False):
+def build_key(alg, expired, revoked, nuids=1, direct=False, uidrev=False):
     pgpy = import_pgpy()
     kw = {}
     if expired:
@@ -71,6 +71,11 @@ def build_key(alg, expired, revoked, nuids=1, direct=False):
     if direct:
         # a direct-key self-signature (type 0x1F): the one kind of signature whose subject is the verifying key itself
         k |= k.certify(k, created=K.ts(K.T0 + 60))
+    if uidrev:
+        # history: an identity of the key is revoked afterwards (the last one added; the only one when there is one) - what is true of the
+        # KEY (its validity period) is not changed by that
+        u = k.userids[-1]
+        u |= k.revoke(u, created=K.ts(K.T0 + 900))
     if revoked:
         rs = k.revoke(k, created=K.ts(K.T0 + 1000))
         k |= rs
@@ -87,9 +92,9 @@ def e2e_events(ctx, scenarios):
         alg, expired, revoked, subj, sigs = sc['alg'], sc['expired'], sc['revoked'], sc['subj'], sc['sigs']
         nuids = len(sigs) if subj == 'selfcert' else 1
         direct = (subj == 'selfcert' and len(sigs) != 2) or subj == 'directsig'         # self-verification also over a direct-key self-signature
-        kk = (alg, expired, revoked, nuids, direct)
+        kk = (alg, expired, revoked, nuids, direct, bool(sc.get('uidrev')))
         if kk not in keys:
-            keys[kk] = build_key(alg, expired, revoked, nuids, direct)
+            keys[kk] = build_key(alg, expired, revoked, nuids, direct, bool(sc.get('uidrev')))
         priv = keys[kk]
         pub = pgpy.PGPKey.from_blob(bytes(priv.pubkey))[0]      # as a verifier would hold it
         rec = {'k': 'e2e', 'expired': expired, 'scenario': sc, 'predicted': predicted}
@@ -201,6 +206,8 @@ def run(ctx):
     if ctx.quick:
         # quick: all scenarios for three algorithms, a seeded third of the rest
         scen = [s for s in scen if s[0]['alg'] in ('ed25519', 'p256', 'rsa1024') or ctx.rng.random() < 0.34]
+    # every scenario again on a key one of whose identities was revoked after the fact (a history, not a new condition of the model)
+    scen = scen + [(dict(sc, uidrev=True), pred) for sc, pred in scen if sc['subj'] in ('doc', 'thirdparty', 'message', 'doc-by-subkey') and sc['alg'] in ('ed25519', 'rsa1024', 'p256')]
     ev = function_events(ctx)
     nf = len(ev)
     e2e = e2e_events(ctx, scen) + planted_expiration_events(ctx)
@@ -247,7 +254,7 @@ def run(ctx):
             key = 'result entries=%s' % e['entries']
         else:
             s = e['scenario']
-            key = 'e2e alg=%s expired=%s revoked=%s subj=%s sigs=%s' % (s['alg'], s['expired'], s['revoked'], s['subj'], s['sigs'])
+            key = 'e2e alg=%s expired=%s revoked=%s subj=%s sigs=%s%s' % (s['alg'], s['expired'], s['revoked'], s['subj'], s['sigs'], ' identity-revoked' if s.get('uidrev') else '')
         ctx.violation(clause, key, {'event': e})
     return ctx.finish(level='model_checking',
                       rule='function level: all 2048 issue values and result objects of 1..3 entries over 20 representative issue sets; end to end: '
